@@ -102,3 +102,93 @@ func init() {
 }
 
 func TestSortIsOneOperation(t *testing.T) { sweepSortAtomic.Check(t, 4) }
+
+// sorts-of-two-instances: two structures of one type are independent objects. While A is being sorted its comparator
+// (the caller's code) sorts B, a second instance - a report that orders one map by looking values up in another sorted
+// map does that. Afterwards each holds its own entries, in order (seed C09-s24: a work list shared by all instances).
+func sortTwoInstancesOne(name string, viaGoroutine bool) (bool, error) {
+	s := suts[name]
+	ca, cb := Case{Type: name}, Case{Type: name}
+	a, b := s.mk(&ca), s.mk(&cb)
+	putName := ""
+	for _, n := range []string{"put", "putLast", "add", "addLast"} {
+		if a.put[n] != nil {
+			putName = n
+			break
+		}
+	}
+	if putName == "" || a.sortHook == nil || a.keys["keys"] == nil {
+		return false, nil
+	}
+	base := s.nSpecial
+	if base+10 >= s.nKeys {
+		base = 0
+	}
+	if base+10 > s.nKeys {
+		return false, nil
+	}
+	// A: keys base+4 .. base (descending insertion), B: keys base+9 .. base+5
+	for k := base + 4; k >= base; k-- {
+		a.put[putName](k, 1)
+	}
+	for k := base + 9; k >= base+5; k-- {
+		b.put[putName](k, 2)
+	}
+	fired := false
+	a.sortHook(func() {
+		if fired {
+			return
+		}
+		fired = true
+		if viaGoroutine {
+			done := make(chan struct{})
+			go func() { defer close(done); b.sortHook(func() {}) }()
+			<-done
+		} else {
+			b.sortHook(func() {})
+		}
+	})
+	if !fired {
+		return false, nil
+	}
+	for _, x := range []struct {
+		in    *inst
+		label string
+		lo    int
+	}{{a, "the structure being sorted", base}, {b, "the second structure (sorted from the first one's comparator)", base + 5}} {
+		ks, err := x.in.keys["keys"](20)
+		if err != nil {
+			return true, fmt.Errorf("%s: %s: key enumeration after the sorts: %v", name, x.label, err)
+		}
+		if len(ks) != 5 || x.in.size() != 5 {
+			return true, fmt.Errorf("%s: %s holds %d keys (Size()=%d) after the two sorts, 5 were inserted", name, x.label, len(ks), x.in.size())
+		}
+		own := map[int]bool{}
+		for _, k := range ks {
+			if k < x.lo || k >= x.lo+5 || own[k] {
+				return true, fmt.Errorf("%s: %s enumerates key %s after the two sorts, which it was never given (or twice); its keys are %s..%s", name, x.label, s.keyStr(k), s.keyStr(x.lo), s.keyStr(x.lo+4))
+			}
+			own[k] = true
+			if !x.in.containsKey(k) {
+				return true, fmt.Errorf("%s: %s enumerates key %s but ContainsKey says no", name, x.label, s.keyStr(k))
+			}
+		}
+	}
+	return true, nil
+}
+
+var sweepSortTwo *pbt.Sweep
+
+func init() {
+	sweepSortTwo = pbt.RegisterSweep(pbt.Sweep{Prop: "C09", Name: "sorts-of-two-instances",
+		Rule: "for each of the 13 linked types: two instances with 5 entries each (disjoint keys, inserted in descending order); instance A is sorted with a comparator that, at its first call, sorts instance B (from the same goroutine, or from a goroutine it waits for); afterwards both must enumerate exactly their own 5 keys, Size()=5, every key found by ContainsKey - the instances are independent objects; 5 repetitions per type and kind; every run is a distinct non-trivial case",
+		N:    uint64(len(sutOrder) * 2 * 5),
+		Run: func(i uint64) (bool, error) {
+			return sortTwoInstancesOne(sutOrder[int(i)%len(sutOrder)], (i/uint64(len(sutOrder)))%2 == 1)
+		},
+		Show: func(i uint64) interface{} {
+			return fmt.Sprintf("%s via-goroutine=%v", sutOrder[int(i)%len(sutOrder)], (i/uint64(len(sutOrder)))%2 == 1)
+		}})
+}
+
+func TestSortTwoInstances(t *testing.T) { sweepSortTwo.Check(t, 1) }
